@@ -21,6 +21,7 @@
 import DymVerif.Lemmas.IncentInv
 import DymVerif.Lemmas.IncentPaging
 import DymVerif.Lemmas.IncentShare
+import DymVerif.Lemmas.GenEqIncent
 namespace DymVerif.C15
 open DymVerif DymVerif.Incent DymVerif.Incent.Coins
 
@@ -270,6 +271,24 @@ example : (([1, 2, 5] : List Nat).map (fun w => streamShare 1000 w 8)).sum = 100
 theorem stream_epoch_bounded_counterexample :
     (([1, 1, 1, 1, 1, 1] : List Nat).map (fun w => streamShare 1000000000000000000 w 6)).sum
       = 1000000000000000002 := by decide
+
+/-- the three facts above about the expressions **as regenerated from the Go sources on this run**
+    (`Gen.Incent.streamShare` from `CalculateGaugeRewards`, `Gen.Incent.lockShare` from
+    `calculateAssetGaugeRewards`) -/
+theorem stream_epoch_bounded_partial_regenerated (epochCoins W : Nat) (ws : List Nat)
+    (h : (ws.map (fun w => ratio w W)).sum ≤ decPN) :
+    (ws.map (fun w => Gen.Incent.streamShare epochCoins w W)).sum ≤ epochCoins := by
+  simp only [GenEq.streamShare_eq]
+  exact shares_le_of_ratios epochCoins W ws h
+
+theorem stream_epoch_bounded_counterexample_regenerated :
+    (([1, 1, 1, 1, 1, 1] : List Nat).map (fun w => Gen.Incent.streamShare 1000000000000000000 w 6)).sum
+      = 1000000000000000002 := by decide
+
+theorem asset_gauge_bounded_regenerated (remain e : Nat) (he : 1 ≤ e) (locks : List Lock) :
+    (locks.map (fun l => Gen.Incent.lockShare remain l.amount (lockSum locks) e)).sum ≤ remain := by
+  simp only [GenEq.lockShare_eq]
+  exact lockShare_total_le remain e he locks
 
 def sixGauges (now : Nat) : List Op := List.replicate 6 (Op.createGauge 0 true 0 1 true [] now 1)
 def sixRecs : List Rec := [⟨1, 1⟩, ⟨2, 1⟩, ⟨3, 1⟩, ⟨4, 1⟩, ⟨5, 1⟩, ⟨6, 1⟩]
